@@ -1,7 +1,7 @@
 /-
 C21 — routers (actor/router.go): round-robin / fan-out / consistent-hash routing and the
 consistent hash ring.  Model of THE CODE AS IT IS.  Routees are identified by their index i
-(the name is routeeName(i, router)); hashes are Nat (uint64 values); the hasher is a parameter.
+(the name is routeeName(i, router); pools of at most 10 routees, so that ID order = index order); hashes are Nat (uint64 values); the hasher is a parameter.
 Go map iteration order is an explicit input (`order`) of every step that ranges over routeesMap.
 -/
 namespace GoaktVerif.Model.C21
@@ -78,30 +78,26 @@ def Router.ids (r : Router) : List Nat := r.members.map (·.1)
 def Router.running (r : Router) (id : Nat) : Bool := r.members.any fun e => e.1 == id && e.2
 
 /-- `availableRoutees`: ranges over the map in this call's iteration order `order` (a permutation of
-    the ids); deletes the entries that are not running BUT still appends them (there is no
-    `continue`), so the slice returned is the whole map; result = (slice, router afterwards) -/
+    the ids); entries that are not running are deleted and skipped; the slice is then sorted by routee
+    ID (model: by routee index), so the result does not depend on `order`;
+    result = (slice, router afterwards) -/
 def available (r : Router) (order : List Nat) : List Nat × Router :=
-  (order, { r with members := r.members.filter (·.2) })
-
-/-- `(int(n)-1) % len(routees)` with n the uint32 value after the increment; Go's % truncates -/
-def rrIndex (n len : Nat) : Int := ((n : Int) - 1).tmod (len : Int)
+  (sortKeys (order.filter r.running), { r with members := r.members.filter (·.2) })
 
 def tellTo (r : Router) (id : Nat) : Outcome :=
   if r.running id then .delivered id else .deadRoutee id
 
-/-- one Broadcast handled with RoundRobinRouting -/
+/-- one Broadcast handled with RoundRobinRouting: `idx = next % len`, `next = (idx+1) % len`
+    (the cursor is kept modulo the pool size; `next` is a uint32 field) -/
 def rrRoute (r : Router) (order : List Nat) : Outcome × Router :=
   let (routees, r1) := available r order
   if routees.isEmpty then (.noRoutees, r1)
   else
-    let n := (r1.next + 1) % 2 ^ 32
-    let r2 := { r1 with next := n }
-    let idx := rrIndex n routees.length
-    if idx < 0 then (.panic, r2)
-    else
-      match routees[idx.toNat]? with
-      | some id => (tellTo r id, r2)
-      | none => (.panic, r2)
+    let idx := (r1.next % 2 ^ 32) % routees.length
+    let r2 := { r1 with next := (idx + 1) % routees.length }
+    match routees[idx]? with
+    | some id => (tellTo r id, r2)
+    | none => (.panic, r2)
 
 /-- successive round-robin messages, one map iteration order per message -/
 def rrRun : Router → List (List Nat) → List Outcome
